@@ -31,8 +31,9 @@ IFACES = {
     "B": {"doc": "one", "params": [{"typ": "float", "def": "float_pos", "doc": "plain"}, {"typ": "bool", "def": "bool_T", "doc": "plain"},
                                     {"typ": "int", "def": "int_neg", "doc": "plain"}], "ret": {"typ": "none", "def": "absent", "doc": "absent"}},
     "C": {"doc": "one", "params": [{"typ": "str", "def": "str", "doc": "dot"}], "ret": {"typ": "none", "def": "absent", "doc": "absent"}},
-    # a required parameter (no default) of a non-builtin type, then a defaulted one
-    "D": {"doc": "one", "params": [{"typ": "Opt_float", "def": "absent", "doc": "plain"}, {"typ": "int", "def": "int_pos", "doc": "plain"}],
+    # a required parameter (no default) of a non-builtin type, a defaulted scalar, and an Optional[str] with a concrete default
+    "D": {"doc": "one", "params": [{"typ": "Opt_float", "def": "absent", "doc": "plain"}, {"typ": "int", "def": "int_pos", "doc": "plain"},
+                                    {"typ": "Opt_str", "def": "str", "doc": "plain"}],
           "ret": {"typ": "none", "def": "absent", "doc": "absent"}},
 }
 SALT = {"A": 0, "A2": 0, "B": 2, "C": 3, "D": 1}
